@@ -216,3 +216,62 @@ M("C12", "C12-REFUSE", SH, "        # Now compare datatype of this object and on
 M("C12", "C12-PATHS", SM, "                serialize_meta=True,\n", "                serialize_meta=False,\n", "metadata not serialised")
 M("C12", "C12-PATHS", SM, "                        tbl.meta[\"__t_ref_bmjd\"], format=\"mjd\", scale=\"tcb\"\n", "                        tbl.meta[\"__t_ref_bmjd\"], format=\"mjd\"\n", "FITS epoch read back without the TCB scale (seeded C04-B)")
 M("C12", "C12-PATHS", SM, "        return cls(samples=tbl, **tbl.meta)", "        return cls(samples=tbl)", "read() drops table metadata kwargs")
+
+# ---------------------------------------------------------------- C15
+M("C15", "C15-LOCK", DT, "        self._t_bmjd = self._t_bmjd[idx]\n        self.rv = self.rv[idx]\n        if self._has_cov:\n            self.rv_err = self.rv_err[idx]\n            self.rv_err = self.rv_err[:, idx]\n        else:\n            self.rv_err = self.rv_err[idx]\n\n        if t_ref is False:",
+  "        self._t_bmjd = self._t_bmjd[idx]\n        if self._has_cov:\n            self.rv_err = self.rv_err[idx]\n            self.rv_err = self.rv_err[:, idx]\n        else:\n            self.rv_err = self.rv_err[idx]\n\n        if t_ref is False:", "rv not sorted with the times")
+M("C15", "C15-LOCK", DT, "        if self._has_cov:\n            self.rv_err = self.rv_err[idx]\n            self.rv_err = self.rv_err[:, idx]\n        else:\n            self.rv_err = self.rv_err[idx]\n\n        if t_ref is False:",
+  "        if self._has_cov:\n            self.rv_err = self.rv_err[idx]\n        else:\n            self.rv_err = self.rv_err[idx]\n\n        if t_ref is False:", "covariance columns not sorted")
+M("C15", "C15-LOCK", DT, "            idx = np.isfinite(self._t_bmjd) & np.isfinite(self.rv)\n\n            if self._has_cov:\n                idx &= np.isfinite(self.rv_err).all(axis=0)\n            else:\n                idx &= np.isfinite(self.rv_err)\n",
+  "            idx = np.isfinite(self._t_bmjd) & np.isfinite(self.rv)\n", "mask ignores the errors")
+M("C15", "C15-LOCK", DT, "        idx = self._t_bmjd.argsort()\n", "        idx = self.rv.argsort()\n", "sorted by velocity")
+M("C15", "C15-LOCK", DT, "                rv_err=self.rv_err.copy()[slc][:, slc],\n", "                rv_err=self.rv_err[slc, slc].copy(),\n", "covariance fancy-indexed in one step (seeded C15-B)")
+M("C15", "C15-LOCK", DT, "                rv=self.rv.copy()[slc],\n                rv_err=self.rv_err.copy()[slc],\n            )", "                rv=self.rv.copy(),\n                rv_err=self.rv_err.copy()[slc],\n            )", "slicing keeps all velocities")
+T("C15", DT, "        self._t_bmjd = self._t_bmjd[idx]\n        self.rv = self.rv[idx]\n        if self._has_cov:\n            self.rv_err = self.rv_err[idx]\n            self.rv_err = self.rv_err[:, idx]\n        else:\n            self.rv_err = self.rv_err[idx]\n\n        if t_ref is False:",
+  "        self.rv = self.rv[idx]\n        if self._has_cov:\n            self.rv_err = self.rv_err[:, idx]\n            self.rv_err = self.rv_err[idx]\n        else:\n            self.rv_err = self.rv_err[idx]\n        self._t_bmjd = self._t_bmjd[idx]\n\n        if t_ref is False:", "statements of the sort block reordered")
+M("C15", "C15-IVAR", DT, "            return 1 / self.rv_err**2\n", "            return 1 / self.rv_err\n", "ivar = 1/err")
+M("C15", "C15-IVAR", DT, "            return np.diag(self.rv_err.value**2) * self.rv_err.unit**2\n", "            return np.diag(self.rv_err.value) * self.rv_err.unit**2\n", "cov diagonal not squared")
+M("C15", "C15-IVAR", DT, "            _t_bmjd = t.tcb.mjd\n", "            _t_bmjd = t.mjd\n", "Time input not converted to TCB")
+M("C15", "C15-TREF", DT, "                t_ref = self.t.min()\n", "                t_ref = self.t.max()\n", "default epoch is the latest time")
+M("C15", "C15-TREF", DT, "                t_ref = self.t.min()\n", "                t_ref = Time(np.nanmin(_t_bmjd), scale=\"tcb\", format=\"mjd\")\n", "default epoch from the raw input times (seeded C15-A)")
+M("C15", "C15-COPY", DT, "            t_ref=False if self.t_ref is None else self.t_ref,\n", "", "t_ref dropped (reverse of fix)")
+M("C15", "C15-COPY", DT, "            rv_err=self.rv_err.copy(),\n            t_ref", "            rv_err=self.rv.copy(),\n            t_ref", "copy passes velocities as errors")
+
+# ---------------------------------------------------------------- C17
+M("C17", "C17-WRAP", SM, "self.tbl[\"omega\"][mask] + np.pi * u.rad\n", "self.tbl[\"omega\"][mask] + np.pi / 2 * u.rad\n", "omega moved by pi/2")
+M("C17", "C17-WRAP", SM, "            self.tbl[\"omega\"][mask] = self.tbl[\"omega\"][mask] % (2 * np.pi * u.rad)\n", "", "modulo deleted")
+M("C17", "C17-WRAP", SM, "            self.tbl[\"omega\"][mask] = self.tbl[\"omega\"][mask] + np.pi * u.rad\n", "            self.tbl[\"omega\"] = self.tbl[\"omega\"] + np.pi * u.rad\n", "omega shifted on every row")
+M("C17", "C17-WRAP", SM, "            self.tbl[\"omega\"][mask] = self.tbl[\"omega\"][mask] + np.pi * u.rad\n            self.tbl[\"omega\"][mask] = self.tbl[\"omega\"][mask] % (2 * np.pi * u.rad)\n",
+  "            omega = self.tbl[\"omega\"]\n            self.tbl[\"omega\"][mask] = np.mod(omega[mask].value + np.pi, 2 * np.pi) * omega.unit\n", "omega's unit ignored (seeded C17-A)")
+M("C17", "C17-WRAP", SM, "        mask = self.tbl[\"K\"] < 0\n", "        mask = self.tbl[\"K\"] <= 0\n", "mask includes K == 0")
+T("C17", SM, "            self.tbl[\"omega\"][mask] = self.tbl[\"omega\"][mask] + np.pi * u.rad\n            self.tbl[\"omega\"][mask] = self.tbl[\"omega\"][mask] % (2 * np.pi * u.rad)\n",
+  "            self.tbl[\"omega\"][mask] = (self.tbl[\"omega\"][mask] + np.pi * u.rad) % (2 * np.pi * u.rad)\n", "single statement")
+M("C17", "C17-PHASE", SM, "        dt = (self[\"P\"] * self[\"M0\"] / (2 * np.pi)).to(u.day, u.dimensionless_angles())\n", "        dt = (self[\"P\"] * self[\"M0\"] / np.pi).to(u.day, u.dimensionless_angles())\n", "2 pi -> pi")
+M("C17", "C17-PHASE", SM, "        t0 = t_ref + dt\n", "        t0 = t_ref - dt\n", "sign of the phase offset")
+M("C17", "C17-PHASE", SM, "        dt = (self[\"P\"] * self[\"M0\"] / (2 * np.pi)).to(u.day, u.dimensionless_angles())\n        t0 = t_ref + dt\n",
+  "        if \"t0\" not in self._cache:\n            dt = (self[\"P\"] * self[\"M0\"] / (2 * np.pi)).to(u.day, u.dimensionless_angles())\n            self._cache[\"t0\"] = t_ref + dt\n        t0 = self._cache[\"t0\"]\n", "t0 cached on the instance (seeded C17-B)")
+T("C17", SM, "        dt = (self[\"P\"] * self[\"M0\"] / (2 * np.pi)).to(u.day, u.dimensionless_angles())\n", "        dt = (self[\"M0\"] / (2 * np.pi) * self[\"P\"]).to(u.day, u.dimensionless_angles())\n", "factors reordered")
+M("C17", "C17-META", SM, "        return cls(samples=new_samples, **self.tbl.meta)\n", "        return cls(samples=new_samples)\n", "_apply drops metadata")
+M("C17", "C17-META", SM, "        if isinstance(key, int):\n            return self.__class__(samples=self.tbl[key])\n", "        if isinstance(key, int):\n            return self.__class__(samples=dict(self.tbl[key]))\n", "row access through a dict loses metadata")
+M("C17", "C17-META", SM, "        return self.__class__(self.tbl.copy(), t_ref=self.t_ref)\n", "        return self.__class__(dict(self.tbl), t_ref=self.t_ref)\n", "copy through a dict loses poly_trend / n_offsets")
+M("C17", "C17-MEDIAN", SM, "        idx = np.argpartition(self[\"P\"], len(self[\"P\"]) // 2)[len(self[\"P\"]) // 2]\n        return self[idx]\n", "        return self._apply(np.median)\n", "median_period interpolates")
+M("C17", "C17-MEDIAN", SM, "        idx = np.argpartition(self[\"P\"], len(self[\"P\"]) // 2)[len(self[\"P\"]) // 2]\n", "        idx = np.argpartition(self[\"K\"], len(self[\"P\"]) // 2)[len(self[\"P\"]) // 2]\n", "median over K")
+M("C17", "C17-PACK", SM, "            arrs.append(self.tbl[name].to_value(unit))\n", "            arrs.append(self.tbl[name].value)\n", "pack strips without converting")
+M("C17", "C17-PACK", SM, "            samples[k] = packed_samples[:, i] * unit\n", "            samples[k] = packed_samples[:, 0] * unit\n", "unpack reads column 0 for every name")
+M("C17", "C17-PACK", SM, "        for i, k in enumerate(list(units.keys())[:npars]):\n", "        for i, k in enumerate(sorted(units.keys())[:npars]):\n", "unpack names columns in sorted order")
+
+# ---------------------------------------------------------------- C19
+M("C19", "C19-MAP", SA, "    ln_post = samples['ln_prior'] + samples['ln_likelihood']\n", "    ln_post = samples['ln_likelihood']\n", "argmax over the likelihood only")
+M("C19", "C19-MAP", SA, "    idx = np.argmax(ln_post)\n", "    idx = np.argmin(ln_post)\n", "argmin")
+M("C19", "C19-MAP", SA, "    ln_post = samples['ln_prior'] + samples['ln_likelihood']\n", "    ln_post = samples['ln_prior'] - samples['ln_likelihood']\n", "difference instead of sum")
+M("C19", "C19-PERM", SA, "    phase = np.sort(data.phase(sample['P']))\n", "    phase = data.phase(sample['P'])\n", "sort deleted")
+M("C19", "C19-WRAP", SA, "    phase = np.concatenate((phase, phase + 1))\n", "    phase = np.concatenate((phase, phase))\n", "second copy unshifted (reverse of fix)")
+M("C19", "C19-WRAP", SA, "    phase = np.concatenate((phase, phase + 1))\n    return (phase[1:] - phase[:-1]).max()\n", "    return np.diff(phase, append=1.).max()\n", "append=1 assumes the first phase is 0 (seeded C19-A)")
+M("C19", "C19-WRAP", SA, "    phase = np.concatenate((phase, phase + 1))\n", "    phase = np.concatenate((phase, phase + 2))\n", "copy shifted by two periods")
+T("C19", SA, "    phase = np.concatenate((phase, phase + 1))\n    return (phase[1:] - phase[:-1]).max()\n", "    return np.diff(np.concatenate((phase, phase[:1] + 1))).max()\n", "only the first phase appended, np.diff")
+T("C19", SA, "    phase = np.concatenate((phase, phase + 1))\n    return (phase[1:] - phase[:-1]).max()\n", "    return np.diff(phase, append=phase[0] + 1).max()\n", "np.diff with append=first+1")
+M("C19", "C19-FORM", SA, "    return (H > 0).sum() / n_bins\n", "    return (H > 0).sum() / (n_bins + 1)\n", "coverage divided by n_bins + 1")
+M("C19", "C19-FORM", SA, "                        bins=np.linspace(0, 1, n_bins+1))\n", "                        bins=np.linspace(0, 1, n_bins))\n", "one bin short")
+M("C19", "C19-FORM", SA, "    return T / P.to_value(u.day)\n", "    return P.to_value(u.day) / T\n", "inverse")
+M("C19", "C19-FORM", SA, "    return T / P.to_value(u.day)\n", "    return T / P.value\n", "period unit ignored (seeded C19-B)")
+M("C19", "C19-FORM", SA, "    return (H > 0).sum() / n_bins\n", "    return (H > 1).sum() / n_bins\n", "bins with one observation not counted")
